@@ -83,7 +83,7 @@ class Report:
             else:
                 new.append(v)
         wall = time.time() - self.t0
-        evdir = os.path.join(VERIF, "evidence")
+        evdir = os.environ.get("VERIF_EVIDENCE_DIR") or os.path.join(VERIF, "evidence")
         os.makedirs(evdir, exist_ok=True)
         vdir = os.path.join(evdir, self.pid + ".violations")
         if os.path.isdir(vdir):
